@@ -227,6 +227,48 @@ def run(ctx):
             else: ops.append((k,))
         run_case(cls, acls, [rng.randint(-5, 5) for _ in range(rng.choice([0, 0, 1, 3]))], ops)
         ctx.count("history", "growth")
+    # ---- iteration interleaved with mutation: an iterator over the array sees what an iterator over the list sees (index-based, live) ------
+    for cls, acls in classes:
+        mk = lambda vs: (acls([cls.from_ticks(v) for v in vs]), list(vs))
+        scen = []
+        scen.append(("remove inside the loop", lambda c, conv: [c.remove(x) for x in c]))
+        def append_inside(c, conv):
+            out = []
+            for x in c:
+                out.append(x)
+                if len(c) < 8:
+                    c.append(conv(len(c) + 100))
+            return out
+        scen.append(("append inside the loop", append_inside))
+        def step_insert(c, conv):
+            it = iter(c); first = next(it); c.insert(0, conv(77)); rest = list(it)
+            return [first] + rest
+        scen.append(("insert between two next() calls", step_insert))
+        def step_set(c, conv):
+            it = iter(c); first = next(it)
+            if len(c) > 2:
+                c[2] = conv(55)
+            del c[1:2]
+            return [first] + list(it)
+        scen.append(("assign / delete between next() calls", step_set))
+        def step_clear(c, conv):
+            it = iter(c); first = next(it); c.clear()
+            return [first] + list(it)
+        scen.append(("clear between next() calls", step_clear))
+        def rev_iter(c, conv):
+            it = reversed(c); first = next(it); c.append(conv(9)); return [first] + list(it)
+        scen.append(("reversed() with an append in between", rev_iter))
+        for label, f in scen:
+            for init in ([1], [1, 2, 3, 4], [5, 6, 7]):
+                a, l = mk(init)
+                oa = outcome(f, a, cls.from_ticks)
+                ol = outcome(f, l, lambda v: v)
+                ra = [getattr(x, "ticks", x) for x in oa[1]] if oa[0] == "ok" and oa[1] is not None else oa[:2]
+                rl = list(ol[1]) if ol[0] == "ok" and ol[1] is not None else ol[:2]
+                ctx.case(("iter-mutation", acls.__name__, label, str(init)))
+                if ra != rl or [x.ticks for x in a] != l:
+                    ctx.violation(what="iteration interleaved with mutation differs from a list", cls=acls.__name__, scenario=label, initial=str(init),
+                                  observed=f"yielded {ra}, left {[x.ticks for x in a]}", required=f"yielded {rl}, left {l}")
     # ---- searching with values of other types: index / count / in / remove answer exactly as the list of the same elements does
     # (a datetime / hightime value is found iff it == an element, position by position; nothing is converted first) ---------------
     import datetime as dt
